@@ -170,6 +170,31 @@ CHECKS.update({
 
 NOT_YET = "check not built yet in this session (designed in DESIGN.md §3; harness work in progress)"
 
+# additions made after the first version of each check (kept separate so the table above stays readable)
+ADDENDA = {
+ "C01": "Plus HTTP/3 on loopback (real Core::listen with QUIC, registry authenticator, DirectForwarder, counting canary): the credential table x {CONNECT host:port, _check, _udp2} as one long session. quick 4000 / thorough 300k HTTP/2 histories.",
+ "C02": "Plus L2 on loopback: position-coded streams through real HTTP/1.1, HTTP/2 and HTTP/3 tunnels over TLS/QUIC (sizes to 24 MiB > the HTTP/2 windows, slow readers, three closing orders), and an HTTP/2 connection-credit scenario (40/400 half-closed tunnels through a 64 KiB connection window). quick 6M + 100k L1 cases.",
+ "C03": "quick also sweeps every /24 of IPv4; every literal spelling is handed to the connector both as a socket address and as a host name.",
+ "C04": "Plus L2: ClientHellos split over several TLS records (client random unavailable) against client-random rules (fail closed, zero server bytes), and QUIC (allow/deny by CIDR and client random through a quiche client).",
+ "C05": "Plus QUIC L2: certificate, h3 and channel per SNI through a quiche client; no session with the QUIC listener disabled.",
+ "C06": "Record pool extended with IPv4-mapped, :: and ::2 endpoints (16 kinds).",
+ "C07": "Operations added: peer restart (socket error surfacing on the receive path) and 2-3 DNS queries outstanding on one port-53 flow against a slow resolver; per-history loopback addresses for the port-53 servers.",
+ "C08": "Tunnel part: deterministic boundary cases (cut at / around the end of the head, payload in the same read, either side closing, gaps 0/1 ms/10 s) + 3000 / 250k seeded cases.",
+ "C09": "Families added: ICMP errors quoting a packet behind every IPv4 option length / IPv6 extension header with 0-12 bytes left; rules files with every prefix-length x mask-length client-random pattern, loaded and evaluated.",
+ "C10": "Plus seeded HTTP/2 sessions of 2-7 concurrent requests with their own outcomes (600 / 40k), OS errors of the connect through the real TcpForwarder and its errno mapping (hook: scripted connect error), and HTTP/3 on loopback.",
+ "C11": "Plus a private-network-namespace scenario (icmp_echo_ignore_all = 1): requests stay pending and are answered by the harness with echo replies, errors quoting 8 / 12 / all bytes, or nothing; each reported exactly once, table empty after the timeout.",
+ "C12": "A well-formed hello of any size whose acceptor has not reported 6 s after the last byte was written is a violation (bytes lost behind the peek).",
+ "C13": "Start-up matrix includes every pair of the four host classes sharing a name.",
+ "C14": "Part C also drips a valid hello one byte per 0.4 T.",
+ "C15": "quick 40k / thorough 3M dialogues.",
+ "C16": "Plus an L1 UDP byte-accounting part (scripted forwarder side, hook run_udp_pipe_scripted) and connections that never become sessions (not TLS, unknown SNI, unknown ALPN, client gone mid-hello).",
+ "C18": "Plus client-supplied X-Original-Protocol on the reverse proxy, and ping / speedtest over HTTP/3 on loopback.",
+ "C19": "Executor participants take 0-2 steps between registration and their first wait and may have endless work; handlers part uses a logical registration barrier (hook Shutdown::verif_participants) and flags handlers holding a notification handle without a completion guard; plus HTTP/3 sessions after submit().",
+ "C20": "Plus the C05 L2 scenarios (real TLS front end, SNI credentials label), Proxy-Authorization values without a space, and the real SOCKS5 upstream path; a record counts as emitted iff the endpoint's own logger accepts it; thorough = 12 rounds at different seeds.",
+}
+for k, v in ADDENDA.items():
+    CHECKS[k]["text"] = CHECKS[k]["text"] + " " + v
+
 def main():
     props = [json.loads(l) for l in open(os.path.join(ROOT, "properties.jsonl"))]
     checks, na = [], []
